@@ -51,7 +51,7 @@ def run(tier, seed):
     else:
         by_key = {i["file"] + "#" + i["type"]: i for i in items}
         hreq, dreq, meta = [], [], []
-        nrand = 2 if tier == "quick" else 24
+        nrand = 2 if tier == "quick" else 256
         for key in ekeys:
             it = by_key[key]
             bb, bs = rust_enums.INT[it["base"]]
